@@ -13,7 +13,11 @@
 (*     attribute / template / return-type line above the header, tailwrap  *)
 (*     = the tokens between `)` and the body - throws list, return type -  *)
 (*     on two lines of their own: three header lines)                      *)
-(*   K class   C control statement (variants if, loop, try)                *)
+(*   K class (variant wrapped, enabled by "W" in Allowed: an anonymous     *)
+(*     class passed as an argument of a call - `wrap(new Object() {` ..    *)
+(*     `});` - whose methods are functions like any other; the call is a   *)
+(*     header candidate without a body that ENCLOSES real headers)         *)
+(*   C control statement (variants if, loop, try)                          *)
 (*   E else / catch / except   A anonymous function                        *)
 (*   X close of the innermost open construct                               *)
 (*   S n simple statements (calls; variants strdelim: string/char literals *)
@@ -67,7 +71,8 @@ Room == Len(prog) + Depth < MaxItems                 \* leave room for the close
 FuncHeader == /\ "F" \in Allowed /\ Room /\ CanOpen
               /\ \E v \in FVariants : (v = "arrow" => Top # "K") /\ Emit(Item("F", v, 1))
               /\ stack' = Append(stack, "F") /\ UNCHANGED <<done, exp>>
-Class      == /\ "K" \in Allowed /\ Room /\ CanOpen /\ Top \in {"top", "F"} /\ Emit(Item("K", "plain", 1))
+Class      == /\ "K" \in Allowed /\ Room /\ CanOpen /\ Top \in {"top", "F"}
+              /\ \E v \in {"plain"} \cup (IF "W" \in Allowed THEN {"wrapped"} ELSE {}) : Emit(Item("K", v, 1))
               /\ stack' = Append(stack, "K") /\ UNCHANGED <<done, exp>>
 Control    == /\ "C" \in Allowed /\ Room /\ CanOpen /\ InFunc /\ Top # "K" /\ \E v \in CVariants : Emit(Item("C", v, 1))
               /\ stack' = Append(stack, "C") /\ UNCHANGED <<done, exp>>
